@@ -49,11 +49,21 @@ static inline void maybe_sleep(int scale) {
     if ((int)(r % 1000) >= p * scale) return;
     usleep(100 + (r >> 10) % 2900);              // 0.1 .. 3 ms
 }
+static std::atomic<uint64_t> g_seq{0};
+static inline uint64_t seq() { return g_seq.fetch_add(1) + 1; }
+// the pool's own mutex (captured from a getTaskStatus() call just before cleanup) and the sequence number taken
+// right after the loop thread first unlocks it inside cleanup(): cleanup()'s critical section — where the stop flag
+// is set and the waiting tasks are dropped — lies before that number
+static std::atomic<int> g_capture{0};
+static std::atomic<pthread_mutex_t *> g_cap_mutex{nullptr};
+static std::atomic<uint64_t> g_cq1{0};
 typedef int (*mlock_t)(pthread_mutex_t *);
 typedef int (*cwait_t)(pthread_cond_t *, pthread_mutex_t *);
 extern "C" int pthread_mutex_lock(pthread_mutex_t *m) {
     static mlock_t real = (mlock_t)dlsym(RTLD_NEXT, "pthread_mutex_lock");
     maybe_sleep(1);
+    if (g_capture.load(std::memory_order_relaxed) && pthread_equal(pthread_self(), g_main_thr) && g_cap_mutex.load() == nullptr)
+        g_cap_mutex = m;
     return real(m);
 }
 // on the LOOP thread, only while it is inside cleanup(): a pause after each unlock lets workers reach
@@ -64,6 +74,9 @@ static std::atomic<int> g_in_cleanup{0};
 extern "C" int pthread_mutex_unlock(pthread_mutex_t *m) {
     static mlock_t real = (mlock_t)dlsym(RTLD_NEXT, "pthread_mutex_unlock");
     int r = real(m);
+    if (g_in_cleanup.load(std::memory_order_relaxed) && m == g_cap_mutex.load() && g_cq1.load() == 0
+        && pthread_equal(pthread_self(), g_main_thr))
+        g_cq1 = seq();
     int p = g_perturb.load(std::memory_order_relaxed);
     if (p != 0) {
         if (pthread_equal(pthread_self(), g_main_thr)) {
@@ -90,8 +103,6 @@ extern "C" int pthread_cond_wait(pthread_cond_t *c, pthread_mutex_t *m) {
 }
 
 // worker threads are created by the loop thread (initialize / execute): count creations and ends exactly
-static std::atomic<uint64_t> g_seq{0};
-static inline uint64_t seq() { return g_seq.fetch_add(1) + 1; }
 static std::atomic<int> g_track{0}, g_created{0}, g_ended{0};
 struct WRec { std::atomic<uint64_t> s{0}, e{0}; std::atomic<int> epoch{0}; };
 static const int kMaxW = 1024;
@@ -242,12 +253,19 @@ template <typename F> static void for_each_task(F f) {
 // bodies that call the API must not overlap cleanup(): wait until every task with a script has finished or was cancelled
 static void wait_scripts_done();
 
-static void guarded_cleanup() {
+static bool g_destroyed = false;
+// destroy = true: run the destructor WITHOUT calling cleanup() first (the destructor has to do it)
+static void guarded_cleanup(bool destroy = false) {
     wait_scripts_done();
+    g_cap_mutex = nullptr; g_cq1 = 0;
+    g_capture = 1;
+    if (g_tp) (void)g_tp->getTaskStatus(cabinet::Token());
+    if (g_wt) (void)g_wt->getTaskStatus(cabinet::Token());
+    g_capture = 0;
     g_deadline_ms = now_ms() + g_watchdog_ms;
     g_in_cleanup = 1;
-    if (g_tp) g_tp->cleanup();
-    if (g_wt) g_wt->cleanup();
+    if (destroy) { delete g_tp; g_tp = nullptr; delete g_wt; g_wt = nullptr; g_destroyed = true; }
+    else { if (g_tp) g_tp->cleanup(); if (g_wt) g_wt->cleanup(); }
     g_in_cleanup = 0;
     g_deadline_ms = 0;
 }
@@ -259,7 +277,7 @@ static void reset_case() {
     delete g_tp; g_tp = nullptr;
     delete g_wt; g_wt = nullptr;
     g_deadline_ms = 0;
-    g_inited = false; g_cleaned = false;
+    g_inited = false; g_cleaned = false; g_destroyed = false;
     g_ntasks = 0; g_nn = 0;
     g_tasks.reset(new TaskRec[kMaxTasks]);
     { std::lock_guard<std::mutex> lg(g_nev_mu); g_nev.clear(); }
@@ -386,7 +404,7 @@ int main() {
         uint64_t a = 0, b = 0, c = 0, d = 0; int64_t pr = 0;
         const std::string &op = w[0];
         if (op == "cfg" && w.size() == 6 && (w[1] == "pool" || w[1] == "wt") && vh::to_u64(w[2], a) && vh::to_u64(w[3], b)
-            && vh::to_u64(w[4], c) && vh::to_u64(w[5], d) && a <= 64 && b <= 64 && d <= 1000 && !g_tp && !g_wt) {
+            && vh::to_u64(w[4], c) && vh::to_u64(w[5], d) && a <= 64 && b <= 64 && d <= 1000 && !g_tp && !g_wt && !g_destroyed) {
             g_pseed = (uint32_t)c * 2654435761u + 12345u;
             g_perturb = (int)d;
             g_track = 1;
@@ -491,7 +509,14 @@ int main() {
             uint64_t qa = seq();
             int live = g_created.load() - g_ended.load();     // worker threads whose thread function has not returned
             g_cleaned = true;
-            std::cout << "P cleanup ok " << qb << " " << qa << " " << live << "\n";
+            std::cout << "P cleanup ok " << qb << " " << qa << " " << live << " " << g_cq1.load() << "\n";
+        } else if (op == "destroy" && w.size() == 1 && (g_tp || g_wt)) {
+            uint64_t qb = seq();
+            guarded_cleanup(true);
+            uint64_t qa = seq();
+            int live = g_created.load() - g_ended.load();
+            g_cleaned = true;
+            std::cout << "P destroy ok " << qb << " " << qa << " " << live << " " << g_cq1.load() << "\n";
         } else if (op == "fin" && w.size() == 1 && !fin_done) {
             fin_done = true;
             wait_scripts_done();                   // bodies that call the API finish first (their records are printed below)
